@@ -16,6 +16,7 @@ func init() {
 			c.run("C08-R2", "SIBLING: sender mirrors the early exit, seeks to the matched offset, sends the remainder", c08R2)
 			c.run("C08-R3", "WHO-CALLS: truncation policy per protocol", c08R3)
 			c.run("C08-R4", "PAIR: compression probing restores the read offset", c08R4)
+			c.run("C08-R5", "GUARD-DOM/MUST-PASS: shape of the hash pipeline on both ends", c08R5)
 		})
 }
 
